@@ -26,6 +26,7 @@ Bps(v, to) == [k |-> "bps", v |-> v, vc |-> "OK", to |-> to]
 Fix(v, to) == [k |-> "fix", v |-> v, vc |-> "OK", to |-> to]
 FeeAct(fees) == [id |-> "FEE", at |-> "FEE", fees |-> fees]
 SwapAct      == [id |-> "SWAP", at |-> "TEST", fees |-> <<>>]
+SwapAct3     == [id |-> "SWAP", at |-> "TEST3", fees |-> <<>>]     \* the same controller returning 3x the units
 
 \* an orbiter transfer: returning native denom, canonical receiver
 Xfer(chan, base, amt, fw, acts) ==
